@@ -11,6 +11,7 @@ def _bad(kind, enc):
         'bad-mti': e('12X0') + bm([2]) + e('0512345'),
         'unknown-bit': e('1240') + bm([2, 7]) + e('0512345'),
         'bad-field-length': e('1240') + bm([2]) + e('XX12345'),
+        'bad-field-length-superscript': e('1240') + bm([2]) + e('0\xb212345'),
         'bad-typed-value': e('1240') + bm([4]) + e('00000000ABCD'),
         'bad-pds': e('1240') + bm([48]) + e('0070001XX1'),
         'bad-icc': e('1240') + bm([55]) + e('001') + b'\x9f',
@@ -76,4 +77,36 @@ def replay_fault(n, k, fault, enc, blocked, lens, L, cut):
         cli.print_exception_details(err)
     if 'Error detected in record %d\n' % k not in buf.getvalue():
         return True, 'operator message: %r' % buf.getvalue()[:80], 'C10/message'
+    return False, 'ok', None
+
+
+def replay_twofaults(k1, k2, kind1, kind2, enc, blocked):
+    from cardutil import mciipm, iso8583
+    n = k2 + 1
+    f = io.BytesIO()
+    w = mciipm.VbsWriter(f, blocked=blocked)
+    for i in range(1, n + 1):
+        if i == k1:
+            w.write(_bad(kind1, enc))
+        elif i == k2:
+            if kind2 == 'oversize':
+                w.out_file.write(struct.pack('>I', 70000))
+            else:
+                w.write(_bad(kind2, enc))
+        else:
+            w.write(iso8583.dumps({'MTI': '1240', 'DE2': 'P' * 12}, encoding=enc))
+    w.close()
+    rd = mciipm.IpmReader(io.BytesIO(f.getvalue()), encoding=enc, blocked=blocked)
+    errors = []
+    for _ in range(n + 2):
+        try:
+            next(rd)
+        except StopIteration:
+            break
+        except mciipm.MciIpmDataError as e:
+            errors.append(e.record_number)
+            if len(errors) == 2:
+                break
+    if errors != [k1, k2]:
+        return True, 'bad records %s reported as %s' % ([k1, k2], errors), 'C10/two-faults'
     return False, 'ok', None
